@@ -507,7 +507,19 @@ fn find_in_items<'a>(src: &str, items: &'a [syn::Item], path: &[String], ctx: &s
         }
         syn::Item::Trait(tr) => {
             if path.len() > 2 {
-                undecided(&format!("{ctx}: nothing can follow a trait method in a path"));
+                // items nested in the default body of a trait method
+                let want = path[1].strip_prefix("fn ").unwrap_or_else(|| undecided(&format!("{ctx}: only `fn` can follow `trait` in a path")));
+                for ii in &tr.items {
+                    if let syn::TraitItem::Fn(f) = ii {
+                        if f.sig.ident == want {
+                            let Some(body) = &f.default else { undecided(&format!("{ctx}: trait method `{want}` has no default body")) };
+                            let items: Vec<syn::Item> = body.stmts.iter().filter_map(|s| if let syn::Stmt::Item(i) = s { Some(i.clone()) } else { None }).collect();
+                            let items: &'a [syn::Item] = Box::leak(items.into_boxed_slice());
+                            return find_in_items(src, items, &path[2..], ctx);
+                        }
+                    }
+                }
+                undecided(&format!("{ctx}: lost item `{}` in `{}`", path[1], path[0]));
             }
             let want = path[1].strip_prefix("fn ").unwrap_or_else(|| undecided(&format!("{ctx}: only `fn` can follow `trait` in a path")));
             for ii in &tr.items {
